@@ -5,3 +5,4 @@ import page_common as _pc
 PAIRS += _pc.malloc_generic_pairs()      # generic path: retry once after a forced collect, NULL only when the page search failed twice; periodic drain of delayed frees
 import heap_collect_common as _hc
 PAIRS += [_hc.pair()]      # mi_heap_collect_ex: steps, force flags and order of a collection
+PAIRS += [_hc.page_collect_pair()]      # per-page step of a collection: empty => freed, live blocks => kept (abandoned on thread exit), never freed
